@@ -100,6 +100,13 @@ def alphabet():
     for c in ('CTL', 'LTL', 'CTLS'):
         for ki in (0, 1):
             ops.append((c, ki, 1, 'text-noparser', 0))
+    # ill-formed calls: they raise TypeError / a ParserError, the caller catches it and carries on with
+    # the same objects (the pool must be untouched, later results unchanged)
+    for c in ('CTL', 'LTL', 'CTLS'):
+        for ki in (1, 3):
+            for Fi in (0, 2, 4):
+                ops.append((c, ki, 0, 'bad-obj', Fi))
+            ops.append((c, ki, 0, 'bad-text', 2))
     return ops
 
 
@@ -143,6 +150,18 @@ class Pool(object):
         kw = {}
         if self.F[Fi] is not None:
             kw['F'] = self.F[Fi]
+        if mode in ('bad-obj', 'bad-text'):
+            # a formula outside the called logic (nested quantifier / path formula), as object or text
+            bad = {'CTL': ('A', ('F', ('G', P))), 'LTL': ('A', ('G', ('E', ('F', P)))), 'CTLS': ('X', P)}[c]
+            if mode == 'bad-obj':
+                arg = lib.build(bad, lib.CTLS)
+            else:
+                arg = str(lib.build(bad, lib.CTLS)) + ' )'
+                kw['parser'] = self.parsers[c]
+            r = call(C.modelcheck, self.K[ki], arg, **kw)
+            if r[0] == 'exc' and r[1] in ('TypeError', 'UnexpectedToken', 'UnexpectedCharacters'):
+                return ('set', ['<raised %s>' % ('TypeError' if r[1] == 'TypeError' else 'ParserError')])
+            return ('exc', 'IllFormedCallNotRejected', repr(r)[:120])
         if mode == 'obj':
             arg = self.forms[c][fi]
         else:
